@@ -258,7 +258,15 @@ func runC05(run *Run, seed int64, sc faultScn, rng *rand.Rand, stopWhen ...func(
 		}
 		key := classifyC05(ch, diffs, statesAtStop, stop)
 		fail(key, "faults stopped at +%v with the live nodes' member lists connected, but after %v (4 x settle bound %v) views still differ from the live set: %+v", sc.TStop, time.Since(stop), settle, diffs)
-		o.Witness = map[string]any{"views_at_stop": viewsAtStop, "states_at_stop": statesAtStop, "dumps_at_end": dumps, "logs": ch.C.LogTails(8)}
+		around := map[string][]string{}
+		for _, cn := range ch.Nodes {
+			for _, ln := range cn.Node.Log.Grep(0, "[INFO]", "[WARN]", "[ERR]") {
+				if ln.At.After(stop.Add(-40*time.Second)) && ln.At.Before(stop.Add(3*time.Minute)) && len(around[cn.Name]) < 200 {
+					around[cn.Name] = append(around[cn.Name], ln.At.Format("15:04:05.000")+" "+ln.Text)
+				}
+			}
+		}
+		o.Witness = map[string]any{"views_at_stop": viewsAtStop, "states_at_stop": statesAtStop, "dumps_at_end": dumps, "logs": ch.C.LogTails(8), "log_around_stop": around}
 	}
 	o.Settled = time.Since(stop)
 	run.Max("settle_over_bound", float64(o.Settled)/float64(settle))
@@ -316,7 +324,7 @@ func classifyC05(ch *Chaos, diffs []viewDiff, statesAtStop map[string]map[string
 		// final components at T_stop was a SUSPECT entry, held by a node that the other
 		// endpoint had itself already declared dead (or reaped). The holder's accusation is
 		// refuted, but the refutation is gossiped only to nodes the refuter still lists.
-		bridges, suspectOnly, inflight := 0, true, 0
+		bridges, suspectOnly, inflight, staleSusp := 0, true, 0, 0
 		cf := live[0].Node.Conf
 		probeWindow := time.Duration(cf.AwarenessMaxMultiplier) * cf.ProbeInterval
 		for _, x := range live {
@@ -346,13 +354,46 @@ func classifyC05(ch *Chaos, diffs []viewDiff, statesAtStop map[string]map[string
 						continue
 					}
 				}
+				if st == "alive" && yDropped {
+					// Third registered history: x's one-way entry for y was alive, but a neighbour z in x's final
+					// component held y SUSPECT at T_stop (or suspected it right afterwards through a probe
+					// begun under the faults); that suspicion spread in x's component, expired there after
+					// T_stop and the dead message took x's entry with it. y refutes, but only towards nodes it lists.
+					suspected, expired := false, false
+					for _, z := range live {
+						if comp[z.Name] != comp[x.Name] {
+							continue
+						}
+						if z != x && statesAtStop[z.Name][y.Name] == "suspect" {
+							suspected = true
+						}
+						for _, ln := range z.Node.Log.Grep(0, "Suspect "+y.Name+" has failed") {
+							if z != x && ln.At.After(stopAt) && ln.At.Sub(stopAt) <= probeWindow {
+								suspected = true
+							}
+						}
+						for _, ln := range z.Node.Log.Grep(0, "Marking "+y.Name+" as failed, suspect timeout reached") {
+							if ln.At.After(stopAt) {
+								expired = true
+							}
+						}
+					}
+					hit := suspected && expired
+					if hit {
+						staleSusp++
+						continue
+					}
+				}
 				if st != "suspect" || !yDropped {
 					suspectOnly = false
 				}
 			}
 		}
-		if bridges > 0 && suspectOnly && inflight == 0 {
+		if bridges > 0 && suspectOnly && inflight == 0 && staleSusp == 0 {
 			return "bridge-only-suspect"
+		}
+		if bridges > 0 && suspectOnly && staleSusp > 0 {
+			return "bridge-lost-to-stale-suspicion"
 		}
 		if bridges > 0 && suspectOnly && inflight > 0 {
 			return "bridge-lost-to-inflight-probe"
